@@ -11,7 +11,7 @@ from ..vlib import build, tlc, util
 from ..vlib.report import MachineryError, Report
 
 util.ensure_repo_importable()
-from strengths import (RDGridSpace, RDNetwork, RDSystem, RDTrajectory, Reaction, Species, UnitArray, UnitsSystem, simulate)  # noqa: E402
+from strengths import (RDGridSpace, RDNetwork, RDSystem, RDTrajectory, Reaction, Species, UnitArray, UnitValue, UnitsSystem, simulate)  # noqa: E402
 from strengths.coarsegrain import coarsegrain_system, uncoarsegrain_trajectory  # noqa: E402
 
 PROP = "C16"
@@ -130,10 +130,16 @@ def identity_simulation(rep, rng, n):
     for k in range(n):
         w, h, d = rng.choice([(2, 1, 1), (2, 2, 1), (3, 2, 1), (2, 2, 2), (1, 1, 1)])
         c = {"shape": [w, h, d], "env": [rng.randrange(2) for _ in range(w * h * d)]}
-        system = build_system(c, UnitsSystem(), rng.choice([1.0, 8.0]))
-        ts = [0.0, 0.01, 0.05]
-        o1 = simulate(system, ts, engine=build.make_engine("euler", lib=lib), time_step=1e-3)
-        o2 = simulate(system, ts, engine=build.make_engine("euler", lib=lib), time_step=1e-3, cgmap=list(range(w * h * d)))
+        # every other system is described in units that are not the simulation's (the default ones): what reaches the
+        # engine through the coarse-graining route must be converted like on the plain route
+        usys = UnitsSystem() if k % 2 == 0 else UnitsSystem(space=rng.choice(["nm", "mm", "dm"]), time=rng.choice(["ms", "s", "min"]),
+                                                            quantity=rng.choice(["molecule", "nmol"]))
+        system = build_system(c, usys, rng.choice([1.0, 8.0]))
+        tu = usys["time"]       # times in the system's own time unit: the same numbers, hence the same stability, in every case
+        ts = UnitArray([0.0, 0.01, 0.05], tu)
+        dt = UnitValue(1e-3, tu)
+        o1 = simulate(system, ts, engine=build.make_engine("euler", lib=lib), time_step=dt)
+        o2 = simulate(system, ts, engine=build.make_engine("euler", lib=lib), time_step=dt, cgmap=list(range(w * h * d)))
         rep.case(["identity-sim", c["shape"], c["env"]])
         a, b = o1.data.convert("molecule").value, o2.data.convert("molecule").value
         if a.shape != b.shape or not np.allclose(a, b, rtol=1e-9, atol=1e-12) or not np.array_equal(o1.t.value, o2.t.value):
